@@ -96,6 +96,15 @@ func (f *fakeSub) SetVerifier(v func(context.Context, H) error) error { f.verifi
 
 var errFetch = errors.New("c15: scripted getter failure")
 
+// a failing getter answers with a plain error or, every other time, with ErrNotFound (a peer
+// that does not have the height): both must end the bifurcation
+func (g *getter) fail() error {
+	if g.n%2 == 0 {
+		return fmt.Errorf("c15: scripted getter failure: %w", header.ErrNotFound)
+	}
+	return errFetch
+}
+
 type resp struct {
 	err bool
 	h   H
@@ -139,18 +148,18 @@ func (g *getter) GetByHeight(ctx context.Context, h uint64) (H, error) {
 	g.n++
 	g.calls = append(g.calls, call{h, id})
 	if i >= g.budget {
-		return nil, errFetch
+		return nil, g.fail()
 	}
 	if r, ok := g.over[h]; ok {
 		if r.err {
-			return nil, errFetch
+			return nil, g.fail()
 		}
 		return r.h, nil
 	}
 	if g.lo <= h && h <= g.hi {
 		return g.chain[h], nil
 	}
-	return nil, errFetch
+	return nil, g.fail()
 }
 
 // ---- observation ----
